@@ -3,6 +3,7 @@ CONSTANTS
   MaxLines = 4
   Modes = {"independent", "cumulative"}
   MaxNext = 5
+  MaxSep = 1
   LineKinds = {"c", "m"}
   Flags = {"found_off_by_one"}
 INVARIANT Lossless
